@@ -73,7 +73,16 @@ def R1_writers(run):
     # who constructs the update records
     allowed_tu = {"manager::tick_manager::next_tick_modify_liquidity_update", PM + "pino_next_tick_modify_liquidity_update",
                   "<state::tick::TickUpdate as std::convert::From<state::tick::Tick>>::from", "<state::tick::TickUpdate as std::default::Default>::default",
-                  "<state::tick::TickUpdate as std::clone::Clone>::clone"}
+                  "<state::tick::TickUpdate as std::clone::Clone>::clone",
+                  # the crossing keeps net / gross / initialized of the tick (C07.R2 decides what it writes), as a copy or a literal
+                  "manager::tick_manager::next_tick_cross_update"}
+    nc = facts.fn("manager::tick_manager::next_tick_cross_update")
+    if nc is not None:
+        for w in writes.struct_writes(facts, nc, prov_of(nc), "state::tick::TickUpdate"):
+            if w["field"] in ("liquidity_net", "liquidity_gross", "initialized"):
+                v = strip(w["val"])
+                run.check("R1", "crossing-keeps:" + w["field"], is_field(v, w["field"]) and is_param(v[1], "tick"),
+                          "next_tick_cross_update writes %s := %s; a crossing must leave it as the tick has it" % (w["field"], sh(v, 60)), loc=nc.loc(w["line"]), detail="unchanged copy")
     cons = {c["fn"].path for c in writes.constructions(facts, "state::tick::TickUpdate")}
     extra = {c for c in cons if c not in allowed_tu}
     run.check("R1", "constructors:TickUpdate", not extra and cons, "TickUpdate values are built outside the tick managers: %s" % sorted(extra), detail="%d construction sites" % len(cons))
@@ -277,7 +286,9 @@ def R5_crossing(run):
                 ne_t = at.false_targets[0] if c[0] == "Eq" else at.true_targets[0]
                 if ub in cfg.reach(sw, eq_t) and not (ub in cfg.reach(sw, ne_t, cut_blocks=[at.block])):
                     g_price = True
-            if c is None and "map_or_else" in s and "get_tick" in s:
+            # the tick's `initialized` flag: through `get_tick(..).map_or_else(.., |t| (Some(t), t.initialized))` or read directly
+            # from the tick that `get_tick(..)` returned
+            if c is None and "get_tick" in s and ("map_or_else" in s or "initialized" in s):
                 t_t = at.true_targets[0]
                 f_t = at.false_targets[0]
                 if ub in cfg.reach(sw, t_t) and ub not in cfg.reach(sw, f_t, cut_blocks=[at.block]):
@@ -304,16 +315,19 @@ def R6_sync(run):
         uts = calls_to(fn, lambda p: p.endswith("::update_tick"))
         pairs = set()
         arrays = set()
+        from analysis.siblings import alts
         for (bi, t, args) in uts:
             pairs.add((arg_name(args[1]), arg_name(args[3])))
-            arrays.add((arg_name(args[0]), arg_name(args[1])))
+            # the receiver may be chosen first and the call made once (`match upper { Some(u) => u, None => lower }.update_tick(..)`)
+            for rcv in alts(args[0]):
+                arrays.add((arg_name(rcv) or sh(rcv, 30), arg_name(args[1])))
         want = {("tick_lower_index", "tick_lower_update"), ("tick_upper_index", "tick_upper_update")}
-        run.check("R6", "tick-update-pairing@" + short, pairs == want and len(uts) == 3, "%s applies (index, update) pairs %s over %d calls, expected %s over 3" % (path, sorted(pairs), len(uts), sorted(want)),
-                  loc=fn.loc(), detail="(lower index, lower update), (upper index, upper update), shared-array branch")
+        run.check("R6", "tick-update-pairing@" + short, pairs == want and len(uts) in (2, 3), "%s applies (index, update) pairs %s over %d calls, expected %s" % (path, sorted(pairs, key=str), len(uts), sorted(want)),
+                  loc=fn.loc(), detail="(lower index, lower update), (upper index, upper update), shared-array case")
         ok = ("tick_array_lower", "tick_lower_index") in arrays and ("tick_array_lower", "tick_upper_index") in arrays and \
              any(a[1] == "tick_upper_index" and a[0] != "tick_array_lower" for a in arrays)
-        run.check("R6", "arrays@" + short, ok, "%s: tick updates are not applied to (lower array, lower), (upper array | lower array when shared, upper): %s" % (path, sorted(arrays)), loc=fn.loc(),
-                  detail=str(sorted(arrays)))
+        run.check("R6", "arrays@" + short, ok, "%s: tick updates are not applied to (lower array, lower), (upper array | lower array when shared, upper): %s" % (path, sorted(arrays, key=str)), loc=fn.loc(),
+                  detail=str(sorted(arrays, key=str)))
         pu = calls_to(fn, lambda p: p.endswith("Position::update") or p.endswith("MemoryMappedPosition::update"))
         ok = len(pu) == 1 and arg_name(pu[0][2][1]) == "position_update" and is_param(pu[0][2][0], "position")
         run.check("R6", "position@" + short, ok, "%s does not apply modify_liquidity_update.position_update to the position" % path, loc=fn.loc(), detail="position.update(update.position_update)")
